@@ -206,6 +206,20 @@ pub fn set_trace_logging(on: bool) {
     log::set_max_level(if on { log::LevelFilter::Trace } else { log::LevelFilter::Off });
 }
 
+/// A sink logger at one of the levels (0 none, 1 / 2 Trace, 3 / 4 Debug, 5 Info,
+/// 6 Warn, 7 Error): code that depends on `log_enabled!` takes each branch.
+pub fn set_log_level_sel(sel: u8) {
+    let _ = log::set_logger(&SINK);
+    log::set_max_level(match sel & 7 {
+        0 => log::LevelFilter::Off,
+        1 | 2 => log::LevelFilter::Trace,
+        3 | 4 => log::LevelFilter::Debug,
+        5 => log::LevelFilter::Info,
+        6 => log::LevelFilter::Warn,
+        _ => log::LevelFilter::Error,
+    });
+}
+
 pub fn set_msg(s: &str) {
     let sh = shared();
     let b = s.as_bytes();
